@@ -11,6 +11,7 @@ Two implementation idioms are recognised; anything else is reported as not analy
 from __future__ import annotations
 
 import ast
+from typing import Dict, Optional
 
 from ..core import astq
 from ..core.program import AnalysisError, Program, ancestors, enclosing_stmt, norm, short, walk_function
@@ -118,15 +119,162 @@ def _idiom_b(fi, res: Result, R: str, argmins) -> None:
     res.ob(R, True, fi.qualname, "idiom: masked arg-min", "", fi.where)
 
 
+def _truth(e: ast.AST, atoms, env) -> Optional[bool]:
+    """Evaluate a boolean combination of the given atoms (functions AST -> Optional[str] naming an atom, possibly
+    negated as '!name') under the assignment env: name -> bool.  None when something else occurs."""
+    if isinstance(e, ast.BoolOp):
+        vals = [_truth(v, atoms, env) for v in e.values]
+        if any(v is None for v in vals):
+            return None
+        return all(vals) if isinstance(e.op, ast.And) else any(vals)
+    if isinstance(e, ast.UnaryOp) and isinstance(e.op, ast.Not):
+        v = _truth(e.operand, atoms, env)
+        return None if v is None else not v
+    a = atoms(e)
+    if a is None:
+        return None
+    return (not env[a[1:]]) if a.startswith("!") else env[a]
+
+
+def _table(e: ast.AST, atoms) -> Optional[Dict[tuple, bool]]:
+    out = {}
+    for r in (False, True):
+        for c in (False, True):
+            v = _truth(e, atoms, {"row": r, "col": c})
+            if v is None:
+                return None
+            out[(r, c)] = v
+    return out
+
+
+def _sorted_edges(fi, res: Result, R: str, param: str) -> None:
+    srt = [c for c in walk_function(fi.node) if isinstance(c, ast.Call) and norm(c.func).split(".")[-1] == "argsort"]
+    ok = len(srt) == 1 and srt[0].args and norm(srt[0].args[0]) == param and any(k.arg == "axis" and norm(k.value) == "None" for k in srt[0].keywords) \
+        and not any(k.arg in ("descending",) for k in srt[0].keywords)
+    res.ob(R, ok, fi.qualname, "edges sorted by ascending cost over the whole matrix", "edges are not sorted by ascending cost over the flattened matrix", fi.where)
+    un = [c for c in walk_function(fi.node) if isinstance(c, ast.Call) and norm(c.func).split(".")[-1] == "unravel_index"]
+    ok = len(un) == 1 and len(un[0].args) == 2 and srt and un[0].args[0] is srt[0] and norm(un[0].args[1]) == f"{param}.shape"
+    res.ob(R, ok, fi.qualname, "flat order converted to (row, col) with the matrix shape", "the sorted flat indices are not unravelled with the matrix shape", fi.where)
+
+
+def _idiom_filter(fi, res: Result, R: str) -> None:
+    """A': pop the head of the sorted edge list, then re-bind the list to the edges sharing neither row nor column."""
+    pops = [c for c in astq.method_calls(fi.node, "pop")]
+    E = pops[0].func.value.id
+    param = fi.node.args.args[0].arg
+    st = enclosing_stmt(pops[0])
+    rc = [norm(e) for e in st.targets[0].elts] if isinstance(st, ast.Assign) and isinstance(st.targets[0], ast.Tuple) else []
+    ok = len(pops) == 1 and len(pops[0].args) == 1 and astq.const_value(pops[0].args[0]) == 0 and len(rc) == 2
+    res.ob(R, ok, fi.qualname, "lowest-cost edge taken first", "the next edge is not popped from the head of the sorted edge list", fi.where)
+    if not ok:
+        return
+    loop = (astq.enclosing_loops(st) or [None])[0]
+    rebinds = [s for s in ast.walk(loop) if isinstance(s, ast.Assign) and norm(s.targets[0]) == E and isinstance(s.value, ast.ListComp)] if loop is not None else []
+    res.ob(R, len(rebinds) == 1, fi.qualname, "one filtering of the remaining edges per choice", f"{len(rebinds)} filterings of `{E}` in the loop", fi.where)
+    for rb in rebinds:
+        comp = rb.value
+        g = comp.generators[0]
+        where = f"{fi.module.relpath}:{rb.lineno}"
+        okg = len(comp.generators) == 1 and norm(g.iter) == E and rb.lineno > st.lineno
+        tg = [norm(e) for e in g.target.elts] if isinstance(g.target, ast.Tuple) and len(g.target.elts) == 2 else None
+        elem = norm(g.target) if tg is None else None
+        okg = okg and ((tg is not None and norm(comp.elt).replace(" ", "") in (f"({tg[0]},{tg[1]})", )) or (elem is not None and norm(comp.elt) == elem))
+
+        def atoms(e):
+            if isinstance(e, ast.Compare) and len(e.ops) == 1 and isinstance(e.ops[0], (ast.Eq, ast.NotEq)):
+                pair = {norm(e.left), norm(e.comparators[0])}
+                neg = "!" if isinstance(e.ops[0], ast.NotEq) else ""
+                r_names = {tg[0]} if tg else {f"{elem}[0]"}
+                c_names = {tg[1]} if tg else {f"{elem}[1]"}
+                if rc[0] in pair and pair & r_names:
+                    return neg + "row"
+                if rc[1] in pair and pair & c_names:
+                    return neg + "col"
+            return None
+
+        cond = g.ifs[0] if len(g.ifs) == 1 else (ast.BoolOp(op=ast.And(), values=list(g.ifs)) if g.ifs else None)
+        tb = _table(cond, atoms) if cond is not None else None
+        want = {(False, False): True, (False, True): False, (True, False): False, (True, True): False}
+        res.ob(R, okg and tb == want, fi.qualname, "edges sharing the chosen row OR column are removed",
+               f"after choosing ({', '.join(rc)}) the remaining edges are `{short(comp, 80)}`: an edge sharing the chosen row or column survives, so a row or a column can be assigned twice", where)
+    res.ob(R, True, fi.qualname, "order-preserving filter (no deletion while iterating)", "", fi.where)
+    _sorted_edges(fi, res, R, param)
+    apps = {norm(c.func.value): norm(c.args[0]) for c in astq.method_calls(fi.node, "append")}
+    rets = [n for n in walk_function(fi.node) if isinstance(n, ast.Return) and isinstance(n.value, ast.Tuple) and len(n.value.elts) == 2]
+    ok = bool(rets) and all(apps.get(norm(r.value.elts[0])) == rc[0] and apps.get(norm(r.value.elts[1])) == rc[1] for r in rets)
+    res.ob(R, ok, fi.qualname, "chosen row/col recorded and returned as (rows, cols)", f"row/col lists receive {apps}", fi.where)
+
+
+def _idiom_used_sets(fi, res: Result, R: str) -> None:
+    """C: one pass over the cost-sorted edges; an edge is skipped when its row or its column was used before, otherwise
+    it is recorded and both are marked used."""
+    param = fi.node.args.args[0].arg
+    loops = [n for n in walk_function(fi.node) if isinstance(n, ast.For) and isinstance(n.target, ast.Tuple) and len(n.target.elts) == 2
+             and isinstance(n.iter, ast.Call) and norm(n.iter.func) == "zip" and len(n.iter.args) == 2]
+    res.ob(R, len(loops) == 1, fi.qualname, "one pass over the sorted (row, col) pairs", f"{len(loops)} zip loops", fi.where)
+    if len(loops) != 1:
+        return
+    lp = loops[0]
+    r, c = [norm(e) for e in lp.target.elts]
+    # the zipped sequences are the two outputs of unravel_index, in order
+    un = [s for s in walk_function(fi.node) if isinstance(s, ast.Assign) and isinstance(s.value, ast.Call) and norm(s.value.func).split(".")[-1] == "unravel_index"
+          and isinstance(s.targets[0], ast.Tuple)]
+    ok = len(un) == 1 and [norm(e) for e in un[0].targets[0].elts] == [norm(a) for a in lp.iter.args]
+    res.ob(R, ok, fi.qualname, "pairs are (row, col) of the sorted flat indices", "the loop does not iterate the unravelled (rows, cols) in order", fi.where)
+    _sorted_edges(fi, res, R, param)
+    adds = {norm(cl.func.value): norm(cl.args[0]) for cl in astq.method_calls(lp, "add") if cl.args}
+    used_r = [k for k, v in adds.items() if v == r]
+    used_c = [k for k, v in adds.items() if v == c]
+    ok = len(used_r) == 1 and len(used_c) == 1 and used_r != used_c
+    res.ob(R, ok, fi.qualname, "row and column of a recorded edge are marked used", f"used-sets receive {adds}", fi.where)
+    if not ok:
+        return
+    UR, UC = used_r[0], used_c[0]
+    for nm in (UR, UC):
+        d = [s for s in astq.assignments_to(fi.node, nm)]
+        okd = len(d) == 1 and not astq.enclosing_loops(d[0])
+        res.ob(R, okd, fi.qualname, f"`{nm}` starts empty before the loop and is never reset", f"`{nm}` is (re)bound {len(d)} times / inside the loop", fi.where)
+    skips = [n for n in lp.body if isinstance(n, ast.If) and any(isinstance(x, ast.Continue) for x in n.body)]
+
+    def atoms(e):
+        if isinstance(e, ast.Compare) and len(e.ops) == 1 and isinstance(e.ops[0], (ast.In, ast.NotIn)):
+            neg = "!" if isinstance(e.ops[0], ast.NotIn) else ""
+            if norm(e.left) == r and norm(e.comparators[0]) == UR:
+                return neg + "row"
+            if norm(e.left) == c and norm(e.comparators[0]) == UC:
+                return neg + "col"
+        return None
+
+    tb = _table(skips[0].test, atoms) if len(skips) == 1 else None
+    want = {(False, False): False, (False, True): True, (True, False): True, (True, True): True}
+    res.ob(R, tb == want, fi.qualname, "an edge is skipped iff its row OR its column is already used",
+           f"the skip test is `{short(skips[0].test, 60) if skips else 'missing'}`: an edge whose row or column is taken can still be recorded (double assignment)", fi.where)
+    # after the skip: appends and adds are unconditional statements of the loop body
+    top = [s for s in lp.body if isinstance(s, ast.Expr) and isinstance(s.value, ast.Call)]
+    top_calls = {norm(s.value.func): norm(s.value.args[0]) for s in top if s.value.args}
+    ok = top_calls.get(f"{UR}.add") == r and top_calls.get(f"{UC}.add") == c and skips and all(s.lineno > skips[0].lineno for s in top)
+    apps = {k[: -len(".append")]: v for k, v in top_calls.items() if k.endswith(".append")}
+    rets = [n for n in walk_function(fi.node) if isinstance(n, ast.Return) and isinstance(n.value, ast.Tuple) and len(n.value.elts) == 2]
+    ok = ok and bool(rets) and all(apps.get(norm(x.value.elts[0])) == r and apps.get(norm(x.value.elts[1])) == c for x in rets)
+    res.ob(R, ok, fi.qualname, "every kept edge is recorded, marked used, and returned as (rows, cols)", f"recorded {apps}, marked {adds}", fi.where)
+
+
 def check_greedy(prog: Program, res: Result, R: str) -> None:
     fi = prog.func("sleap_nn.tracking.utils:greedy_matching")
     res.touch(fi)
     argmins = [c for c in walk_function(fi.node) if isinstance(c, ast.Call) and norm(c.func).split(".")[-1] in ("argmin", "nanargmin")]
     has_edges = bool(astq.method_calls(fi.node, "pop")) or any(isinstance(n, ast.Delete) for n in walk_function(fi.node))
+    pops = astq.method_calls(fi.node, "pop")
+    dels = [n for n in walk_function(fi.node) if isinstance(n, ast.Delete)]
+    adds = astq.method_calls(fi.node, "add")
     if argmins and not has_edges:
         _idiom_b(fi, res, R, argmins)
-    elif has_edges:
+    elif pops and dels:
         _idiom_a(fi, res, R)
+    elif pops and not dels and isinstance(pops[0].func.value, ast.Name):
+        _idiom_filter(fi, res, R)
+    elif adds and not pops:
+        _idiom_used_sets(fi, res, R)
     else:
         raise AnalysisError("greedy_matching: neither the edge-list nor the masked arg-min idiom is recognised")
     res.floor(R, 6)
